@@ -3,6 +3,7 @@
 #ifndef TETL_CHRONO_TIME_POINT_HPP
 #define TETL_CHRONO_TIME_POINT_HPP
 
+#include <etl/_chrono/duration.hpp>
 #include <etl/_type_traits/common_type.hpp>
 #include <etl/_type_traits/is_convertible.hpp>
 
@@ -156,6 +157,39 @@ template <typename Clock, typename Dur1, typename Dur2>
     -> bool
 {
     return lhs.time_since_epoch() >= rhs.time_since_epoch();
+}
+
+/// Adds a duration to a time point, in the common type of the two durations. [time.point.nonmember]
+template <typename Clock, typename Dur1, typename Rep2, typename Period2>
+[[nodiscard]] constexpr auto operator+(time_point<Clock, Dur1> const& lhs, duration<Rep2, Period2> const& rhs)
+    -> time_point<Clock, common_type_t<Dur1, duration<Rep2, Period2>>>
+{
+    using CT = time_point<Clock, common_type_t<Dur1, duration<Rep2, Period2>>>;
+    return CT(lhs.time_since_epoch() + rhs);
+}
+
+template <typename Rep1, typename Period1, typename Clock, typename Dur2>
+[[nodiscard]] constexpr auto operator+(duration<Rep1, Period1> const& lhs, time_point<Clock, Dur2> const& rhs)
+    -> time_point<Clock, common_type_t<duration<Rep1, Period1>, Dur2>>
+{
+    return rhs + lhs;
+}
+
+/// Subtracts a duration from a time point, in the common type of the two durations. [time.point.nonmember]
+template <typename Clock, typename Dur1, typename Rep2, typename Period2>
+[[nodiscard]] constexpr auto operator-(time_point<Clock, Dur1> const& lhs, duration<Rep2, Period2> const& rhs)
+    -> time_point<Clock, common_type_t<Dur1, duration<Rep2, Period2>>>
+{
+    using CT = time_point<Clock, common_type_t<Dur1, duration<Rep2, Period2>>>;
+    return CT(lhs.time_since_epoch() - rhs);
+}
+
+/// The duration between two time points of the same clock. [time.point.nonmember]
+template <typename Clock, typename Dur1, typename Dur2>
+[[nodiscard]] constexpr auto operator-(time_point<Clock, Dur1> const& lhs, time_point<Clock, Dur2> const& rhs)
+    -> common_type_t<Dur1, Dur2>
+{
+    return lhs.time_since_epoch() - rhs.time_since_epoch();
 }
 
 } // namespace etl::chrono
